@@ -69,9 +69,10 @@ type c20Filter struct {
 }
 
 type c20Case struct {
-	Doc    c20Doc    `json:"doc"`
-	Filter c20Filter `json:"filter"`
-	Via    string    `json:"via"`
+	Doc    c20Doc     `json:"doc"`
+	Filter c20Filter  `json:"filter"`
+	Via    string     `json:"via"`
+	Prev   *c20Filter `json:"prev,omitempty"` // the filter of the request sent just before (request sequences)
 }
 
 func jsonEqual(a, b json.RawMessage) bool {
@@ -276,6 +277,64 @@ func TestVerifC20(t *testing.T) {
 			r.Violation(fmt.Sprintf("fetch stream has extra entries filter=%s", vlib.JSON(f)), c20Case{Filter: f, Via: "fetch"}, fmt.Sprint(err))
 		}
 	})
+	// ---- request sequences: the answer does not depend on the request served before (pooled filter state).
+	// Every ordered pair over a reduced filter set that includes long lists, sequentially on one goroutine.
+	long9 := []string{"a", "b", "a.b", "zz", "é", "", `q"\k`, "y1", "y2"}
+	long12 := []string{"b", "zz", "y1", "y2", "y3", "y4", "y5", "y6", "y7", "y8", "y9", "y10"}
+	seqF := []c20Filter{{None: true}, {Fields: []string{"a"}, Allow: true}, {Fields: []string{"a"}, Allow: false}, {Fields: []string{"b", "zz"}, Allow: true},
+		{Fields: []string{"a.b", "b"}, Allow: false}, {Fields: long9, Allow: true}, {Fields: long9, Allow: false}, {Fields: long12, Allow: true}, {Fields: long12, Allow: false}, {Fields: []string{"é"}, Allow: true}}
+	if replay && rc.Prev != nil {
+		seqF = []c20Filter{*rc.Prev, rc.Filter}
+	}
+	var sub []int
+	for i := 0; i < len(rdocs); i += max(1, len(rdocs)/16) {
+		sub = append(sub, i)
+	}
+	fetchSub := func(f c20Filter) ([][]byte, error) {
+		req := &pb.FetchRequest{}
+		for _, i := range sub {
+			req.Ids = append(req.Ids, ids[i])
+		}
+		if !f.None {
+			req.FieldsFilter = &pb.FetchRequest_FieldsFilter{Fields: f.Fields, AllowList: f.Allow}
+		}
+		stream, err := client.Fetch(context.Background(), req)
+		if err != nil {
+			return nil, err
+		}
+		var out [][]byte
+		for range sub {
+			m, err := stream.Recv()
+			if err != nil {
+				return nil, err
+			}
+			out = append(out, append([]byte{}, disk.DocBlock(m.Data).Payload()...))
+		}
+		return out, nil
+	}
+	if !replay || rc.Prev != nil {
+		for i1 := range seqF {
+			for i2 := range seqF {
+				f1, f2 := seqF[i1], seqF[i2]
+				if _, err := fetchSub(f1); err != nil {
+					r.Violation(fmt.Sprintf("fetch error filter=%s", vlib.JSON(f1)), c20Case{Filter: f1, Via: "fetch"}, err.Error())
+					continue
+				}
+				out, err := fetchSub(f2)
+				if err != nil {
+					r.Violation(fmt.Sprintf("fetch error filter=%s", vlib.JSON(f2)), c20Case{Filter: f2, Via: "fetch"}, err.Error())
+					continue
+				}
+				for j, di := range sub {
+					r.Add("evaluations", 1)
+					r.Add("sequence_evaluations", 1)
+					if v := c20Check(rdocs[di].Body, out[j], f2); v != "" {
+						r.Violation(fmt.Sprintf("fetch after a request with filter=%s: filter=%s doc=%s", vlib.JSON(f1), vlib.JSON(f2), rdocs[di].Body), c20Case{Doc: docs[di], Filter: f2, Via: "fetch-seq", Prev: &f1}, fmt.Sprintf("stored %s\n%s", rdocs[di].Body, v))
+					}
+				}
+			}
+		}
+	}
 	// ---- via the proxy: `<query> | fields …` ----
 	plain := func(q string) ([]seq.ID, [][]byte, error) {
 		sr := &search.SearchRequest{Q: []byte(q), Size: len(rdocs) + 5, From: 0, To: seq.MID(vfrac.MaxMID), ShouldFetch: true, Order: seq.DocsOrderDesc}
@@ -351,7 +410,7 @@ func TestVerifC20(t *testing.T) {
 	r.Sample(c20Case{Doc: docs[len(docs)/2], Filter: filters[len(filters)/2], Via: "fetch"})
 	ev := r.Get("evaluations")
 	r.Finish(t, "model_checking",
-		fmt.Sprintf("%d stored JSON objects from the grammar names{a,b,a.b,é,\"\",a spelled \\u0061,é spelled \\u00e9,q\"\\k} x values{1,-0.5e3,\"s\",escaped string,\"é\",true,null,{},{\"x\":1},[1,{\"y\":2}],\"\"} with 0..3 fields (all 1- and 2-field name sequences, 3-field ones thinned in quick), with and without insignificant whitespace; %d field filters = every list of <=3 names over {a,b,a.b,zz} incl. repeats in allow and except mode, no filter, and lists with é / empty name / a name with quote and backslash; every (document, filter) through the streaming GrpcV1.Fetch of an in-process store; every filter (quick: every 5th) again through search.Ingestor.Search with a fields pipe (ID sequence must equal the un-piped search). Oracle: output is a JSON object with exactly the expected key set, every kept value JSON-equal (numbers numerically), no filter => identical bytes", len(docs), len(filters)),
+		fmt.Sprintf("%d stored JSON objects from the grammar names{a,b,a.b,é,\"\",a spelled \\u0061,é spelled \\u00e9,q\"\\k} x values{1,-0.5e3,\"s\",escaped string,\"é\",true,null,{},{\"x\":1},[1,{\"y\":2}],\"\"} with 0..3 fields (all 1- and 2-field name sequences, 3-field ones thinned in quick), with and without insignificant whitespace; %d field filters = every list of <=3 names over {a,b,a.b,zz} incl. repeats in allow and except mode, no filter, and lists with é / empty name / a name with quote and backslash; every (document, filter) through the streaming GrpcV1.Fetch of an in-process store; every ordered pair of requests over 10 filters incl. lists of 9 and 12 names, sequentially (the answer must not depend on the request served before); every filter (quick: every 5th) again through search.Ingestor.Search with a fields pipe (ID sequence must equal the un-piped search). Oracle: output is a JSON object with exactly the expected key set, every kept value JSON-equal (numbers numerically), no filter => identical bytes", len(docs), len(filters)),
 		map[string]any{
 			"states":                        len(docs) * len(filters),
 			"transitions":                   ev,
